@@ -17,12 +17,12 @@
    the commit built at that request (TypedCM.v, SignLCM.v).
    The same for the pre-commit under anti-MEV (SignP.v .. SignPNoCV.v, the construction with the roles of the two phases exchanged):
    the node asks for pre-commit data at most once per epoch, its own PreCommit slot keeps that pre-commit, and from that request
-   on no call changes the view or makes it broadcast a ChangeView.
+   on no call changes the view or makes it broadcast a ChangeView, and every PreCommit it broadcasts is the one built then.
    The history-level clauses about proposals, responses and pre-commits (no two per view / at all), the commits carried inside
    recovery messages, view monotonicity of the outgoing messages and the recovery contents are NOT proved; they
    are decided by the monitors on the real library over the generated histories (DESIGN.md section 0.1). *)
 From Coq Require Import ZArith List.
-From DbftV Require Import P03 P02 SignLApi SignLCV Typed SignLNoCV SignLCM SignPApi SignPNoCV.
+From DbftV Require Import P03 P02 SignLApi SignLCV Typed SignLNoCV SignLCM SignPApi SignPNoCV SignPPM.
 Open Scope Z_scope.
 
 Definition own_commit_or_precommit_sent (s : nstate) : Prop :=
@@ -184,3 +184,19 @@ Theorem after_its_precommit_the_node_broadcasts_no_change_view cfg st g ev sc st
   no_change_view_broadcast tr.
 Proof. intros HE Hc Hs Hk Hz Hn s p Hin. exact (no_change_view_after_the_precommit cfg st g ev sc st' tr mi s p HE Hc Hs Hk Hz Hn Hin). Qed.
 Print Assumptions after_its_precommit_the_node_broadcasts_no_change_view.
+
+(* "never broadcasts two different pre-commits; every retransmission is identical" (direct retransmissions) *)
+Theorem every_precommit_broadcast_from_the_request_on_is_the_built_precommit cfg st g mi g1 s p g2 :
+  Epoch cfg st g -> KS mi g -> zlen (Validators st) <= 65536 ->
+  g = g1 ++ (s, CBroadcast p) :: g2 -> p_type p = PreCommitT -> nset g1 <> 0%nat ->
+  exists c, set_precommit g1 = Some c /\ p = c <| p_idx := u16 (MyIndex s) |>.
+Proof. exact (every_precommit_broadcast_is_the_built_precommit cfg st g mi g1 s p g2). Qed.
+Print Assumptions every_precommit_broadcast_from_the_request_on_is_the_built_precommit.
+
+Theorem precommit_broadcasts_of_an_epoch_are_identical cfg st g mi g1 s p g2 g1' s' p' g2' :
+  Epoch cfg st g -> KS mi g -> zlen (Validators st) <= 65536 ->
+  g = g1 ++ (s, CBroadcast p) :: g2 -> p_type p = PreCommitT -> nset g1 <> 0%nat ->
+  g = g1' ++ (s', CBroadcast p') :: g2' -> p_type p' = PreCommitT -> nset g1' <> 0%nat ->
+  MyIndex s = MyIndex s' -> p = p'.
+Proof. exact (precommit_broadcasts_are_identical cfg st g mi g1 s p g2 g1' s' p' g2'). Qed.
+Print Assumptions precommit_broadcasts_of_an_epoch_are_identical.
